@@ -153,6 +153,11 @@ fn invalid_args(ident_name: &IdentName, call: &CallExpr) -> bool {
         return false;
     }
 
+    // $method.apply($this) without an argument list is $this.$method()
+    if call.args.len() == 1 {
+        return false;
+    }
+
     if call.args.len() >= 2 {
         let this = &call.args[0];
         let args_array = &call.args[1];
